@@ -733,7 +733,8 @@ func compileAssignStmtLeft(context *funcContext, stmt *ast.AssignStmt) (int, []*
 		case *ast.AttrGetExpr:
 			ac := &assigncontext{&expcontext{ecTable, regNotDefined, 0}, 0, 0, false, false}
 			if simple {
-				compileExprWithKMVPropagation(context, st.Object, &reg, &ac.ec.reg)
+				// the table operand of SETTABLE/SETTABLEKS is a register, never a constant
+				compileExprWithMVPropagation(context, st.Object, &reg, &ac.ec.reg)
 			} else {
 				ac.ec.reg = reg
 				reg += compileExpr(context, reg, st.Object, ecnone(0))
